@@ -48,6 +48,8 @@ def kind_pools():
 
 FORMS = {
     "lt": "a < b", "le": "a <= b", "gt": "a > b", "ge": "a >= b",
+    # exactly one of <, ==, > through the operators of the language
+    "tri": "[a < b, a == b, a > b, a != b, equals(a, b)]",
     "cmp": "compare(a, b)", "min": "min(a, b)", "max": "max(a, b)",
     "less": "less(a, b)", "greater": "greater(a, b)",
     "sorted": "sorted(l)",
@@ -137,6 +139,13 @@ def explore_pairs(chunk):
                     agg.count("steps")
                     if boolval(r) is not want:
                         bad("program:" + name, want, core.show_raw(r))
+                r = f.ev("tri", a=a, b=b)
+                agg.count("steps")
+                want = [exp_lt, exp_eq, exp_gt, not exp_eq, exp_eq]
+                if not (r[0] == "value" and core.strict_eq(
+                        core.from_value(r[1]), want)):
+                    bad("program:exactly-one-of-lt-eq-gt", want,
+                        core.show_raw(r))
                 r = f.ev("cmp", a=a, b=b)
                 want = -1 if exp_lt else (1 if exp_gt else 0)
                 if not (r[0] == "value" and core.strict_eq(
